@@ -4,7 +4,7 @@
    with the operators, constants and tables regenerated from /repo (Gen/IncludeOrderOps.v, Gen/IncludeOrderTables.v); the
    right-hand specifications (key, lex_lt, Permutation, ...) are fixed text. *)
 From Coq Require Import Permutation.
-From Symv Require Import Lint.IncludeOrder Lint.IncludeOrderProofs Lint.Propose Lint.ProposeProofs Lint.Indent Lint.IndentProofs.
+From Symv Require Import Lint.IncludeOrder Lint.IncludeOrderProofs Lint.IncludeOrderProofs2 Lint.Propose Lint.ProposeProofs Lint.Indent Lint.IndentProofs.
 Open Scope Z_scope.
 
 (* ---- the comparator ---- *)
@@ -34,6 +34,26 @@ Print Assumptions lt_strict_weak_order.
 Theorem lt_total_on_distinct : forall a b, a <> b -> lt_b a b = true \/ lt_b b a = true.
 Proof. exact IncludeOrderProofs.lt_total. Qed.
 Print Assumptions lt_total_on_distinct.
+
+(* "total order" spelled out: exactly one of a < b, a = b, b < a; the derived "not after" relation is antisymmetric, transitive
+   and total; and the key determines the include string *)
+Theorem lt_trichotomy : forall a b,
+  (lt_b a b = true /\ lt_b b a = false /\ a <> b)
+  \/ (a = b /\ lt_b a b = false /\ lt_b b a = false)
+  \/ (lt_b b a = true /\ lt_b a b = false /\ a <> b).
+Proof. exact IncludeOrderProofs2.lt_trichotomy. Qed.
+Print Assumptions lt_trichotomy.
+
+Theorem not_after_is_total_order :
+  (forall a b, negb (lt_b b a) = true -> negb (lt_b a b) = true -> a = b)
+  /\ (forall a b c, negb (lt_b b a) = true -> negb (lt_b c b) = true -> negb (lt_b c a) = true)
+  /\ (forall a b, negb (lt_b b a) = true \/ negb (lt_b a b) = true).
+Proof. exact (conj IncludeOrderProofs2.le_antisym (conj IncludeOrderProofs2.le_trans IncludeOrderProofs2.le_total)). Qed.
+Print Assumptions not_after_is_total_order.
+
+Theorem key_determines_include : forall a b, key a = key b -> a = b.
+Proof. exact IncludeOrderProofs2.key_injective. Qed.
+Print Assumptions key_determines_include.
 
 (* ---- the proposal of Entry.check_includes ---- *)
 
